@@ -44,6 +44,12 @@ var propStandins = map[string][]Standin{
 		Bound:   "restart after a kill (only the order of operations inside saveState and Writer.Finalize is under contract): 15 (quick) / 150 (thorough) seeded histories of 24 / 30 manager calls out of small imports (awaited until reported processed, or not awaited), AddTag / DelTag / definition updates, pauses, and kills; a kill copies the state, snapshot, index and capture directories from inside the service goroutine - i.e. between two handlers, while import, merge and tagging jobs keep writing - and may add to the copy a half-written index file (a prefix of a complete one without its magic) under a newer name and a half-written newer state file next to the complete one; a second service is started on the copy and must start within 30 s without an error, show every tag acknowledged before the kill with its definition and colour and no other tag, show every stream of every import that was reported processed before the kill under its old id and client endpoint, settle, and then decide every tag for exactly the streams its definition selects. Crash points inside a handler (between the write of the new state file and the removal of the old one, inside a release) are not generated; converter caches and snapshots are copied but no converter is installed and no capture is large enough for a snapshot",
 		Timeout: 10 * time.Minute,
 	}},
+	"C16": {{
+		Name: "converter-output", Pkg: "internal/index/manager", TestFile: "converter_standin_test.go", TestName: "TestC16Standin", OutEnv: "C16_OUT",
+		EnvQuick: []string{"C16_HISTORIES=8", "C16_LEN=14"}, EnvThorough: []string{"C16_HISTORIES=80", "C16_LEN=20"},
+		Bound:   "converter output end to end with a real converter process (a python3 script the harness writes into the converter directory; it answers every stream with the same chunks in upper case): 8 (quick) / 80 (thorough) seeded histories of 14 / 20 manager calls out of imports of a new conversation (server port 9001 or 80, one of 4 payload words), imports of more data for an old conversation (its output has to be produced again), AddTag of three tags, attaching / detaching the converter, pauses; after every call the service is left alone until no job runs and nothing is queued for conversion, then on a fresh view: a search in the converter output (data.up:WORD, four words) must find every stream that is matched by a tag the converter is attached to and whose current upper-cased payload contains the word, and no stream whose current upper-cased payload does not contain it; the converter output shown for every such stream (at the end of the history: for every stream) must be its current payload in upper case, chunk by chunk. The interleaving of converter, import and tagging jobs is whatever the scheduler produces; reads while a converter job is running, converter crashes, several converters and cache files surviving a restart are not generated. Needs python3 on PATH",
+		Timeout: 10 * time.Minute,
+	}},
 	"C13": {{
 		Name: "refcount", Pkg: "internal/index/manager", TestFile: "refcount_standin_test.go", TestName: "TestC13Standin", OutEnv: "C13_OUT",
 		EnvQuick: []string{"C13_HISTORIES=12", "C13_LEN=30"}, EnvThorough: []string{"C13_HISTORIES=120", "C13_LEN=40"},
